@@ -520,3 +520,40 @@ def r10(ctx, R):
 def r11(ctx, R):
     from . import c20
     c20.qdelta_cache(ctx, R)
+
+
+@rule('C02', 'C02.R12', 'a sweeper that is initialised AGAIN (adaptive collocation re-runs __init__ with new parameters) forgets the preconditioner generators of its previous collocation: the cached genQI / genQE are deleted whenever they exist, under no further condition', floor=2)
+def r12(ctx, R):
+    from ..cfg import FuncCFG
+    repo = ctx.repo
+    rel = 'pySDC/core/sweeper.py'
+    fn = repo.func(rel, 'Sweeper.__init__')
+    w = f'{rel}:Sweeper.__init__'
+    R.fn(w)
+    cfg = FuncCFG(fn)
+    dels = []
+    for n, s in cfg.stmt_of.items():
+        if isinstance(s, ast.Expr) and isinstance(s.value, ast.Call) and ast.unparse(s.value.func) == 'delattr' and len(s.value.args) == 2 and ast.unparse(s.value.args[0]) == 'self':
+            loops = [ast.unparse(l.iter) for l in cfg.loops_of[id(s)] if isinstance(l, ast.For)]
+            names = set()
+            for l in cfg.loops_of[id(s)]:
+                if isinstance(l, ast.For) and isinstance(l.iter, (ast.List, ast.Tuple)):
+                    names |= {e.value for e in l.iter.elts if isinstance(e, ast.Constant)}
+            if isinstance(s.value.args[1], ast.Constant):
+                names.add(s.value.args[1].value)
+            guards = [(ast.unparse(t), pol) for t, pol in cfg.guards.get(id(s), ())]
+            dels.append((names, guards))
+        if isinstance(s, ast.Delete):
+            for t in s.targets:
+                if isinstance(t, ast.Attribute) and ast.unparse(t.value) == 'self':
+                    dels.append(({t.attr}, [(ast.unparse(g), pol) for g, pol in cfg.guards.get(id(s), ())]))
+    for gen in ('genQI', 'genQE'):
+        mine = [(nm, g) for nm, g in dels if gen in nm]
+        ok = len(mine) == 1 and all(pol and re.fullmatch(r"hasattr\(self, (name|'%s'|\"%s\")\)" % (gen, gen), t) for t, pol in mine[0][1]) and len(mine[0][1]) <= 1
+        R.check(ok, f'Sweeper.__init__ :: self.{gen} of an earlier initialisation is deleted whenever it exists', w, 'if hasattr(self, name): delattr(self, name)  (no further condition)', [g for _, g in mine])
+
+
+@rule('C02', 'C02.R13', 'the end point of a Runge-Kutta sweep is the configured one: the stiffly-accurate test of an EMBEDDED tableau looks at the primary row of weights (override obligations of ButcherTableauEmbedded, shared with C04.R8)', floor=1)
+def r13(ctx, R):
+    from . import c04
+    c04.r8(ctx, R)
